@@ -140,7 +140,11 @@ def program_sets(tier):
     """list of (label, generator) for the tier"""
     sets = [('N=1,K<=3', lambda: e2a.programs(1, 3)),
             ('N=2,K<=2,total<=3', lambda: e2a.programs(2, 2, total_ops=3)),
-            ('N=3,K<=1,core ops,one form', lambda: e2a.programs(3, 1, rich=False, forms=('a',)))]
+            ('N=3,K<=1,core ops,one form', lambda: e2a.programs(3, 1, rich=False, forms=('a',))),
+            ('N=3,K<=1,core ops,lines a a b', lambda: e2a.programs(3, 1, rich=False, place_filter=lambda pl: [f for f, r in pl] == ['a', 'a', 'b'])),
+            ('N=2,K<=1,colliding names', lambda: e2a.programs(2, 1, naming='collide')),
+            ('N=3,K<=1,core ops,one form,colliding names', lambda: (p for p in e2a.programs(3, 1, rich=False, forms=('a',), naming='collide')
+                                                                     if sum(len(l['body']) for l in p) <= 2))]
     if tier == 'thorough':
         sets += [('N=3,K<=1,core ops', lambda: e2a.programs(3, 1, rich=False)),
                  ('N=2,K<=2', lambda: e2a.programs(2, 2)),
